@@ -1,9 +1,9 @@
 //! Directory-pack scenarios (C02, C03, C15, also feeds C14): schema + entries through the public
 //! creator API, every value logged as written, then read back through the public reader API.
 use crate::out::{catch, emit};
-use jubako as jbk;
 use jbk::creator::schema;
 use jbk::reader::{CompareTrait, EntryTrait, Range};
+use jubako as jbk;
 use serde::Deserialize;
 use serde_json::{json, Value as J};
 use std::cell::RefCell;
@@ -173,7 +173,13 @@ pub fn populate(
     for st in &stores {
         creator.add_value_store(st.clone());
     }
-    let common = schema::CommonProperties::new(s.schema.common.iter().map(|p| mk_prop(p, &stores)).collect());
+    let common = schema::CommonProperties::new(
+        s.schema
+            .common
+            .iter()
+            .map(|p| mk_prop(p, &stores))
+            .collect(),
+    );
     let variants = s
         .schema
         .variants
@@ -181,7 +187,9 @@ pub fn populate(
         .map(|v| {
             (
                 leak(&v.name),
-                schema::VariantProperties::new(v.props.iter().map(|p| mk_prop(p, &stores)).collect()),
+                schema::VariantProperties::new(
+                    v.props.iter().map(|p| mk_prop(p, &stores)).collect(),
+                ),
             )
         })
         .collect();
@@ -193,7 +201,8 @@ pub fn populate(
     let sch = schema::Schema::<&'static str, &'static str>::new(common, variants, sort);
     let mut store = Box::new(jbk::creator::EntryStore::new(sch, None));
     // one vow per entry, created up front so that any entry may refer to any other (C15)
-    let vows: Vec<jbk::Vow<jbk::EntryIdx>> = s.entries.iter().map(|_| jbk::Vow::new(0.into())).collect();
+    let vows: Vec<jbk::Vow<jbk::EntryIdx>> =
+        s.entries.iter().map(|_| jbk::Vow::new(0.into())).collect();
     let binds: Vec<jbk::Bound<jbk::EntryIdx>> = vows.iter().map(|v| v.bind()).collect();
     let mut handles = Vec::new();
     for (e, vow) in s.entries.iter().zip(vows) {
@@ -256,7 +265,9 @@ pub fn run(s: &Scn) {
             return;
         }
         Err(p) => {
-            emit(json!({"ev":"Finalize","ok":false,"panic":p,"site":crate::out::last_panic_site()}));
+            emit(
+                json!({"ev":"Finalize","ok":false,"panic":p,"site":crate::out::last_panic_site()}),
+            );
             emit(json!({"ev":"End","scn":s.id}));
             return;
         }
@@ -295,8 +306,14 @@ impl<C: CompareTrait> CompareTrait for Recorder<C> {
     }
 }
 
-pub fn entry_json(entry: &impl EntryTrait, names: &[String], vnames: &[String]) -> Result<J, String> {
-    let var = entry.get_variant_id().map_err(|e| format!("variant: {e}"))?;
+pub fn entry_json(
+    entry: &impl EntryTrait,
+    names: &[String],
+    vnames: &[String],
+) -> Result<J, String> {
+    let var = entry
+        .get_variant_id()
+        .map_err(|e| format!("variant: {e}"))?;
     let mut vals = serde_json::Map::new();
     for n in names {
         match entry.get_value(n) {
@@ -333,8 +350,91 @@ pub fn variant_names(store: &jbk::reader::EntryStore) -> Vec<String> {
     }
 }
 
+/// The same entry read through the typed property builders (`Property::as_builder`, the custom-reader API of
+/// examples/custom_read.rs) instead of AnyBuilder / LazyEntry: returns the values in the format of `entry_json`.
+fn typed_entry(
+    s: &Scn,
+    store: &jbk::reader::EntryStore,
+    vs: &jbk::reader::ValueStorage,
+    idx: jbk::EntryIdx,
+    vnames: &[String],
+) -> Result<Option<J>, String> {
+    use jbk::reader::builder::{
+        ArrayProperty, ContentProperty, IntProperty, PropertyBuilderTrait, SignedProperty,
+    };
+    let reader = match store.get_entry_reader(idx) {
+        Some(r) => r,
+        None => return Ok(None),
+    };
+    let layout = store.layout();
+    let mut vals = serde_json::Map::new();
+    macro_rules! read_props {
+        ($props:expr, $decl:expr) => {
+        for p in $decl.iter() {
+            let lp = match $props.iter().find(|(n, _)| n.as_str() == p.name.as_str()).map(|(_, lp)| lp) {
+                Some(lp) => lp,
+                None => continue,
+            };
+            let e = |e: jbk::Error| format!("typed {}: {e}", p.name);
+            let missing = || format!("typed {}: not a {} property", p.name, p.typ);
+            let v = match p.typ.as_str() {
+                "uint" | "ref" => {
+                    let b: IntProperty = lp.as_builder(vs).map_err(e)?.ok_or_else(missing)?;
+                    json!({"u": b.create(&reader).map_err(e)?})
+                }
+                "sint" => {
+                    let b: SignedProperty = lp.as_builder(vs).map_err(e)?.ok_or_else(missing)?;
+                    json!({"s": b.create(&reader).map_err(e)?})
+                }
+                "array" => {
+                    let b: ArrayProperty = lp.as_builder(vs).map_err(e)?.ok_or_else(missing)?;
+                    let mut out = jbk::SmallBytes::new();
+                    b.create(&reader).map_err(e)?.resolve_to_vec(&mut out).map_err(e)?;
+                    json!({"a": out.to_vec()})
+                }
+                "content" => {
+                    let b: ContentProperty = lp.as_builder(vs).map_err(e)?.ok_or_else(missing)?;
+                    let c = b.create(&reader).map_err(e)?;
+                    json!({"c": [c.pack_id.into_u16(), c.content_id.into_u32()]})
+                }
+                o => return Err(format!("typed: unknown type {o}")),
+            };
+            vals.insert(p.name.clone(), v);
+        }
+        };
+    }
+    read_props!(&layout.common, &s.schema.common);
+    let mut var: Option<u8> = None;
+    if let Some(vp) = &layout.variant_part {
+        let vid = vp
+            .as_builder()
+            .create(&reader)
+            .map_err(|e| format!("typed variant id: {e}"))?;
+        let vid = vid.into_u8();
+        var = Some(vid);
+        let vname = vnames.get(vid as usize).cloned().unwrap_or_default();
+        if let (Some(props), Some(decl)) = (
+            vp.variants.get(vid as usize),
+            s.schema.variants.iter().find(|v| v.name == vname),
+        ) {
+            read_props!(props, &decl.props);
+        }
+    }
+    let vname = var.map(|v| {
+        vnames
+            .get(v as usize)
+            .cloned()
+            .unwrap_or_else(|| format!("#{v}"))
+    });
+    Ok(Some(
+        json!({"variant": vname, "variantId": var, "values": vals}),
+    ))
+}
+
 fn read_back(s: &Scn, path: &str) -> Result<(), String> {
-    let reader: jbk::Reader = jbk::FileSource::open(path).map_err(|e| e.to_string())?.into();
+    let reader: jbk::Reader = jbk::FileSource::open(path)
+        .map_err(|e| e.to_string())?
+        .into();
     let pack = Arc::new(jbk::reader::DirectoryPack::new(reader).map_err(|e| format!("open: {e}"))?);
     emit(json!({"ev":"Open","ok":true}));
     let es = pack.create_entry_storage();
@@ -359,29 +459,68 @@ fn read_back(s: &Scn, path: &str) -> Result<(), String> {
                 continue;
             }
         };
-        emit(json!({"ev":"Index","name":ixd.name,"res":"ok","count":index.count().into_u32(),"offset":index.offset().into_u32()}));
+        emit(
+            json!({"ev":"Index","name":ixd.name,"res":"ok","count":index.count().into_u32(),"offset":index.offset().into_u32()}),
+        );
         let store = index.get_store(&es).map_err(|e| format!("store: {e}"))?;
         let vnames = variant_names(&store);
-        let builder = jbk::reader::builder::AnyBuilder::new(store, vs.as_ref()).map_err(|e| format!("builder: {e}"))?;
+        let store2 = index.get_store(&es).map_err(|e| format!("store: {e}"))?;
+        let builder = jbk::reader::builder::AnyBuilder::new(store, vs.as_ref())
+            .map_err(|e| format!("builder: {e}"))?;
         let n = index.count().into_u32();
         let stride = std::cmp::max(s.read_stride, 1);
         let mut i = 0;
         while i < n {
             match index.get_entry(&builder, jbk::EntryIdx::from(i)) {
                 Ok(Some(e)) => match entry_json(&e, &names, &vnames) {
-                    Ok(j) => emit(json!({"ev":"Read","index":ixd.name,"i":i,"res":"ok","entry":j})),
-                    Err(err) => emit(json!({"ev":"Read","index":ixd.name,"i":i,"res":"err","err":err})),
+                    Ok(j) => {
+                        // the typed builders must give what the generic one gives
+                        let t = catch(|| {
+                            typed_entry(
+                                s,
+                                &store2,
+                                vs.as_ref(),
+                                index.offset() + jbk::EntryIdx::from(i),
+                                &vnames,
+                            )
+                        });
+                        let (tres, tdetail) = match t {
+                            Ok(Ok(Some(tj))) if tj == j => ("same", J::Null),
+                            Ok(Ok(Some(tj))) => ("differs", tj),
+                            Ok(Ok(None)) => ("none", J::Null),
+                            Ok(Err(e)) => ("err", json!(e)),
+                            Err(p) => ("panic", json!(p)),
+                        };
+                        emit(
+                            json!({"ev":"Read","index":ixd.name,"i":i,"res":"ok","entry":j,"typed":tres,"typedEntry":tdetail}),
+                        )
+                    }
+                    Err(err) => {
+                        emit(json!({"ev":"Read","index":ixd.name,"i":i,"res":"err","err":err}))
+                    }
                 },
                 Ok(None) => emit(json!({"ev":"Read","index":ixd.name,"i":i,"res":"none"})),
-                Err(err) => emit(json!({"ev":"Read","index":ixd.name,"i":i,"res":"err","err":err.to_string()})),
+                Err(err) => emit(
+                    json!({"ev":"Read","index":ixd.name,"i":i,"res":"err","err":err.to_string()}),
+                ),
             }
-            i += if i + stride < n || i + 1 == n { stride } else { n - 1 - i };
+            i += if i + stride < n || i + 1 == n {
+                stride
+            } else {
+                n - 1 - i
+            };
         }
         for past in [n, n + 1, u32::MAX - 1] {
             match index.get_entry(&builder, jbk::EntryIdx::from(past)) {
-                Ok(Some(_)) => emit(json!({"ev":"Read","index":ixd.name,"i":past,"res":"ok","past":true})),
-                Ok(None) => emit(json!({"ev":"Read","index":ixd.name,"i":past,"res":"none","past":true})),
-                Err(err) => emit(json!({"ev":"Read","index":ixd.name,"i":past,"res":"err","past":true,"err":err.to_string()})),
+                Ok(Some(_)) => {
+                    emit(json!({"ev":"Read","index":ixd.name,"i":past,"res":"ok","past":true}))
+                }
+                Ok(None) => {
+                    emit(json!({"ev":"Read","index":ixd.name,"i":past,"res":"none","past":true}))
+                }
+                Err(err) => emit(
+                    json!({"ev":"Read","index":ixd.name,"i":past,"res":"err","past":true,"err":err.to_string()}),
+                ),
             }
         }
         for (k, f) in s.finds.iter().enumerate() {
@@ -403,8 +542,10 @@ fn read_back(s: &Scn, path: &str) -> Result<(), String> {
                     Ok(Err(e)) => json!({"err": e.to_string()}),
                     Err(p) => json!({"panic": p}),
                 };
-                emit(json!({"ev":"Find","index":ixd.name,"k":k,"ordered":ordered,"res":res,
-                            "probes": probes.iter().take(200).collect::<Vec<_>>(), "nprobes": probes.len()}));
+                emit(
+                    json!({"ev":"Find","index":ixd.name,"k":k,"ordered":ordered,"res":res,
+                            "probes": probes.iter().take(200).collect::<Vec<_>>(), "nprobes": probes.len()}),
+                );
             }
         }
     }
